@@ -18,6 +18,7 @@ import VrlModel.Driver.C28
 import VrlModel.Driver.C29f
 import VrlModel.Driver.C21
 import VrlModel.Driver.C19
+import VrlModel.Driver.C32
 
 /-- Line protocol driver: one case per line `op <tab> arg…`, one reply line per case. -/
 def handlers : List (String → List String → Option String) := [
@@ -40,7 +41,8 @@ def handlers : List (String → List String → Option String) := [
   Driver.C28.handle,
   Driver.C29f.handle,
   Driver.C21.handle,
-  Driver.C19.handle
+  Driver.C19.handle,
+  Driver.C32.handle
 ]
 
 def dispatch (op : String) (args : List String) : String :=
